@@ -35,6 +35,16 @@ MUTANTS = {
         ('depth-negative', 'dashlive/mpeg/dash/timing.py', 'if not self.timeShiftBufferDepth or self.timeShiftBufferDepth < 0:', 'if not self.timeShiftBufferDepth:'),
         ('leeway-ms', 'dashlive/mpeg/dash/timing.py', 'self.leeway = datetime.timedelta(seconds=options.leeway)', 'self.leeway = datetime.timedelta(milliseconds=options.leeway)'),
     ],
+    'C12': [
+        ('mps-start-ceil', 'dashlive/server/requesthandler/media_requests.py', '        start_time: int = int(math.floor(\n            period.start.total_seconds() * timing_ref.timescale))', '        start_time: int = int(math.ceil(\n            period.start.total_seconds() * timing_ref.timescale))'),
+        ('mps-num-offset', 'dashlive/server/requesthandler/media_requests.py', '            mod_seg += seg_num - representation.start_number\n', '            mod_seg += seg_num - 1\n'),
+        ('mps-beyond-end', 'dashlive/server/requesthandler/media_requests.py', '            if mod_seg > representation.num_media_segments:\n                logging.warning(\n                    "Request for segment', '            if mod_seg > representation.num_media_segments + 1:\n                logging.warning(\n                    "Request for segment'),
+        ('mps-origin', 'dashlive/server/requesthandler/media_requests.py', '        origin_time = -seg_start_tc\n', '        origin_time = -origin_time\n'),
+        ('vodp-start', 'dashlive/server/requesthandler/manifest_context.py', '            period.start = start\n            self.periods.append(period)\n            start += period.duration\n\n    def create_all_live', '            self.periods.append(period)\n            start += period.duration\n            period.start = start\n\n    def create_all_live'),
+        ('livep-filter', 'dashlive/server/requesthandler/manifest_context.py', '            if period_end >= timing.firstAvailableTime:', '            if start >= timing.firstAvailableTime:'),
+        ('livep-loops', 'dashlive/server/requesthandler/manifest_context.py', '            if index == 0:\n                num_loops += 1', '            if index == 1:\n                num_loops += 1'),
+        ('livep-exit', 'dashlive/server/requesthandler/manifest_context.py', '        while start <= timing.elapsedTime:', '        while start + duration <= timing.elapsedTime:'),
+    ],
     'C13': [
         ('range-no-suffix-clamp', 'dashlive/server/requesthandler/base.py', 'start = max(0, content_length - amount)', 'start = content_length - amount'),
         ('range-no-last-clamp', 'dashlive/server/requesthandler/base.py', 'end = min(int(end_str, 10), content_length - 1)', 'end = int(end_str, 10)'),
